@@ -115,6 +115,10 @@ CHECKS = {
          "Repair enabled: for (d,p) up to (4,2), all damage subsets of size 1..p x damage kinds; after one successful read every shard file must be byte-identical to the originally encoded shard and every subset of p further removed shards must still read back exactly.",
          "Trusted: as C25.",
          "7/C26"),
+ "C31": (EXPL, "deterministic simulation (single task): seeded add/update/remove programs over a streaming data store with value sizes from one byte to a megabyte, process restarts; decode-to-the-end comparison with the model and chunk-index probes",
+         "Seeded programs of Add / AddIfNotExist / Upsert / Update / UpdateCurrentValue / Remove / RemoveCurrentItem over 1-4 keys with 1-5 values of sizes {1 .. 1 MiB} per entry, one transaction per step, restarts in between; after every step and restart every entry is decoded to the end and must equal the sequence written last, removed entries must not be found and none of their chunk indexes may exist.",
+         "Trusted: simulator, model. No schedule or fault dimension (the property quantifies over programs; atomicity of a failed streaming commit is C01/C07's subject); the simulator supplies the disk, the restarts and the seeded sampling. Assumes encoding/json issues one Write per Encode.",
+         "7/C31"),
  "C37": (EXPL, "deterministic simulation + trace checking: a monitor on the simulated disk turns registry block writes into handle transitions; traces of concurrent committers (seeded schedules) and of commits crashed at every registry write are checked against the node-version protocol",
          "Implementation traces (task, old handle image, new handle image for every registry slot written) from 2-3 concurrent committers over 1-3 nodes and from commits crashed before/after every registry block write followed by recovery. Checked: at most one successfully committing installer per (node, version); a flip bumps the version by one and activates a complete node blob; after recovery the crashed commit's handles are all post-commit or all pre-commit.",
          "Trusted: simulator, the block decoder (sop's handle marshaler), the engine's commit outcomes. The abstract protocol itself is NOT model-checked here (that half of the property's quantifier belongs to another technique); only implementation traces are checked against its invariants. Leftover reserved ids with an expired timestamp are not judged (reclaimable by design; see C09/C11).",
